@@ -1,5 +1,5 @@
 import BumpVerif.Proofs.StrProgram
-import BumpVerif.Proofs.StrLossy
+import BumpVerif.Proofs.StrLossySpec
 import BumpVerif.Proofs.StrUtf16
 /-!
 # C14 — `collections::String` behaves like `std`'s `String` and is always UTF-8
@@ -135,21 +135,40 @@ theorem C14_replace_range (ovf : Bool) (s : Bytes) (sb eb : Bd) (t : Bytes) (hs 
   refine ⟨replaceRange_eq ovf s sb eb t hs he, fun h1 h2 => ?_⟩
   rw [replaceRange_split ovf l₁ l₂ l₃ sb eb (encode r) hs he h1 h2, ← encode_append, ← encode_append]
 
-/-- **F7** (known finding): at `usize::MAX` a plain `n + 1` wraps when it is not overflow-checked,
-so `..=usize::MAX` does not panic (std panics); it panics as soon as it is checked — by the
-profile's overflow checks or by `checked_add` in the source; which of the two the source has is
-regenerated by the translator (`Gen.STR_*_END_CHECKED`). -/
-theorem C14_range_end_overflow (s t : Bytes) (take back : Nat) (hv : Valid s) (o₂ : Bool) :
+/-- the source computes `n + 1` with `checked_add` at all three sites (flags regenerated from
+src/collections/string.rs and vec.rs; reverting fix 894a021 flips them and breaks this) -/
+theorem C14_range_arith_checked (ovf : Bool) :
+    drainOvf ovf = true ∧ replaceOvf ovf = true ∧ vecDrainOvf ovf = true := by
+  cases ovf <;> decide
+
+/-- **Range bounds at `usize::MAX` panic in every build profile** (what `std` does): an
+`Excluded` start or `Included` end of `usize::MAX` cannot be turned into a half-open range. -/
+theorem C14_range_end_overflow_panics (ovf : Bool) (s t : Bytes) (sb eb : Bd) (take back : Nat) (forget : Bool) (n : Nat)
+    (hn : ¬ n + 1 < USIZE) (h : sb = .excl n ∨ eb = .incl n) :
+    drain ovf s sb eb take back forget = .panic ∧ replaceRange ovf s sb eb t = .panic := by
+  obtain ⟨h1, h2, h3⟩ := C14_range_arith_checked ovf
+  have hadd : addOne true n = .panic := by simp [addOne, hn]
+  have hS : ∀ b, rangeStart true b = .panic ∨ ∃ m, rangeStart true b = .ok m := by
+    intro b; cases b <;> simp [rangeStart, addOne] <;> (repeat' split) <;> simp <;> omega
+  have hA : ∀ b, startAssert true s b = .panic ∨ startAssert true s b = .ok () := by
+    intro b; cases b <;> simp [startAssert, addOne] <;> (repeat' split) <;> simp_all
+  unfold drain drainWith replaceRange replaceRangeWith
+  rw [h1, h2, h3]
+  rcases h with rfl | rfl
+  · simp [rangeStart, startAssert, hadd]
+  · refine ⟨?_, ?_⟩
+    · rcases hS sb with h | ⟨m, h⟩ <;> simp [h, rangeEnd, hadd]
+    · rcases hA sb with h | h <;> simp [h, endAssert, hadd]
+
+/-- what used to go wrong (F7 of bumpalo 3.17.0), kept as a statement about the unchecked
+arithmetic: with a plain `n + 1` and overflow checks off, `..=usize::MAX` wraps to an empty
+range at 0 instead of panicking -/
+theorem C14_range_end_unchecked_wraps (s t : Bytes) (take back : Nat) (hv : Valid s) (o₂ : Bool) :
     replaceRangeWith false false s .unbounded (.incl (USIZE - 1)) t = .ok (t ++ s)
     ∧ replaceRangeWith true o₂ s .unbounded (.incl (USIZE - 1)) t = .panic
     ∧ drainWith false s .unbounded (.incl (USIZE - 1)) take back false = .ok ⟨s, [], []⟩
-    ∧ drainWith true s .unbounded (.incl (USIZE - 1)) take back false = .panic
-    ∧ (∀ ovf sb eb f, drain ovf s sb eb take back f
-        = drainWith (ovf || Gen.STR_DRAIN_END_CHECKED == 1) s sb eb take back f)
-    ∧ (∀ ovf sb eb, replaceRange ovf s sb eb t
-        = replaceRangeWith (ovf || Gen.STR_REPLACE_RANGE_END_CHECKED == 1) (ovf || Gen.VEC_DRAIN_END_CHECKED == 1) s sb eb t) :=
-  ⟨replaceRange_wraps s t, replaceRange_checked o₂ s t, drain_wraps s take back hv, drain_checked s take back false,
-   fun _ _ _ _ => rfl, fun _ _ _ => rfl⟩
+    ∧ drainWith true s .unbounded (.incl (USIZE - 1)) take back false = .panic :=
+  ⟨replaceRange_wraps s t, replaceRange_checked o₂ s t, drain_wraps s take back hv, drain_checked s take back false⟩
 
 /-! ## decoders -/
 
@@ -161,6 +180,23 @@ theorem C14_lossy_valid (dbg : Bool) (v : Bytes) : ∃ out, fromUtf8Lossy dbg v 
 /-- **`lossy_id`**: valid input comes back unchanged -/
 theorem C14_lossy_id (dbg : Bool) (v : Bytes) (hv : Valid v) : fromUtf8Lossy dbg v = .ok v := by
   obtain ⟨l, rfl⟩ := hv; exact fromUtf8Lossy_id dbg l
+
+/-- **`lossy_spec`**: the output is the reference decoding `RefLossy` — well-formed sequences
+copied, every maximal subpart of an ill-formed subsequence (Unicode 3.9; defined from Table 3-7
+through `encChar`/`decodeHead`, without the width table) replaced by one U+FFFD — and that
+reference is a function -/
+theorem C14_lossy_spec (dbg : Bool) (v : Bytes) :
+    (∃ out, fromUtf8Lossy dbg v = .ok out ∧ RefLossy v out)
+    ∧ (∀ o₁ o₂, RefLossy v o₁ → RefLossy v o₂ → o₁ = o₂)
+    ∧ (∀ out, RefLossy v out → fromUtf8Lossy dbg v = .ok out) :=
+  ⟨fromUtf8Lossy_spec dbg v, fun _ _ h₁ h₂ => RefLossy_functional h₁ h₂, fromUtf8Lossy_eq_ref dbg v⟩
+
+/-- the reference on examples: a lone lead, a truncated 3-byte sequence (one U+FFFD for its
+two-byte maximal subpart), a surrogate encoding (three U+FFFD) -/
+example : fromUtf8Lossy true [0x61, 0xC3] = .ok [0x61, 0xEF, 0xBF, 0xBD]
+    ∧ fromUtf8Lossy true [0xE2, 0x82, 0x41] = .ok [0xEF, 0xBF, 0xBD, 0x41]
+    ∧ fromUtf8Lossy true [0xED, 0xA0, 0x80] = .ok [0xEF, 0xBF, 0xBD, 0xEF, 0xBF, 0xBD, 0xEF, 0xBF, 0xBD] := by
+  decide
 
 /-- one iteration of the decoder's loop accepts exactly the scalar values of Unicode Table 3-7
 (`decodeHead`, defined without the width table), with the same length, and rejects the rest -/
@@ -182,8 +218,7 @@ example : text16 [0x61, 0xD83D, 0xDE00] = some ['a', '😀'] ∧ text16 [0xDC00]
 /-! ## the invariant over whole programs -/
 
 /-- **Always UTF-8**: for every program over the methods of the property, every argument (any
-byte index, any range bound incl. `usize::MAX`), either overflow mode, with panicking calls
-caught: the string is valid UTF-8 after every operation and the model never reaches a `bad`
+byte index, any range bound incl. `usize::MAX`), either overflow mode, with panicking calls caught: the string is valid UTF-8 after every operation and the model never reaches a `bad`
 state (no read of non-UTF-8 text, no wrapping length arithmetic). -/
 theorem C14_always_valid (ovf : Bool) (ops : List SOp) :
     ∃ s, runOps ovf [] ops = some s ∧ Valid s := runOps_valid ovf ops Valid_nil
@@ -194,6 +229,7 @@ theorem C14_step_valid (ovf : Bool) (s : Bytes) (hv : Valid s) (op : SOp) :
 /-- the hypotheses are satisfiable: a concrete run -/
 example : runOps true [] [.fromStr ['a', 'é', '€', '😀'], .insert 1 'z', .remove 2, .truncate 5, .pop]
     = some (encode ['a', 'z']) := by decide
+
 
 end Bump.Str
 
@@ -218,9 +254,12 @@ end Bump.Str
 #print axioms Bump.Str.C14_drain
 #print axioms Bump.Str.C14_drain_bounds
 #print axioms Bump.Str.C14_replace_range
-#print axioms Bump.Str.C14_range_end_overflow
+#print axioms Bump.Str.C14_range_arith_checked
+#print axioms Bump.Str.C14_range_end_overflow_panics
+#print axioms Bump.Str.C14_range_end_unchecked_wraps
 #print axioms Bump.Str.C14_lossy_valid
 #print axioms Bump.Str.C14_lossy_id
+#print axioms Bump.Str.C14_lossy_spec
 #print axioms Bump.Str.C14_lossy_step_table37
 #print axioms Bump.Str.C14_from_utf16
 #print axioms Bump.Str.C14_always_valid
